@@ -29,7 +29,7 @@ OBLIGATIONS = ["NiftyVerif.C14." + t for t in (
     "cg_status_final", "cg_result_not_worse", "cg_conjugacy_invariants", "cg_exact_in_n_steps", "cg_exact_solution",
     "ie_modes_available", "inversion_enabler_direct", "inversion_enabler_solves", "inversion_enabler_run",
     "inversion_enabler_solves_gradinf", "inversion_enabler_solves_deltaE", "inversion_enabler_solves_absdeltaE",
-    "inversion_enabler_solves_stochastic", "complex_hermitian_covered", "driver_instance_lawful")]
+    "inversion_enabler_solves_stochastic", "complex_hermitian_covered", "cg_exact_complex", "driver_instance_lawful")]
 RULE = ("cases: (qe) QuadraticEnergy at/at_with_grad on integer systems, exact; (ctrl) each of the 5 controllers fed "
         "with generated observation sequences (exact dyadic), all levels/limits incl. degenerate; (cg) generated "
         "integer HPD systems real/complex, +-preconditioner, every controller, nreset 1..5/20, whole trajectory compared "
